@@ -47,7 +47,7 @@ def judge_op(chk, fm, parent_H, parent_T, op, rc, tell, H, P, hist, stats):
         if kind == 'ps':
             if tell != p:
                 chk.violation(key_for(fm, None, op, 'landed_elsewhere'), f'{op} landed at {tell}', rep)
-            if p == fm.L and P != 'ok:0':
+            if p == fm.L and P not in ('ok:0', '-', None):
                 chk.violation(key_for(fm, None, op, 'no_eof_at_L'), f'{op}: read after seek to L gave {P}', rep)
             stats['sigs'].add(('ps', fm.link_of_pos(p), p in fm.fence[fm.link_of_pos(p)], p == fm.L, parent_T == fm.L))
         else:
@@ -104,7 +104,7 @@ def make_judge(chk, stats):
     return judge
 
 
-def seed_states(fm):
+def seed_states(fm, rich=True):
     seeds = [[], ['ps%d' % fm.L], ['ps%d' % (fm.L // 3), 'rf37'], ['ps-1'], ['rf4096', 'rf1']]
     for k, l in enumerate(fm.lt):
         lastpage = fm.pages[l['last']]
@@ -112,12 +112,12 @@ def seed_states(fm):
         if fm.links[k]['n'] > 600:
             seeds.append(['ps%d' % (fm.start[k] + 300), 'rf37'])
     seeds.append(['rs%d' % fm.size])
-    return seeds
+    return seeds if rich else seeds[:4] + seeds[5:6]
 
 
-def sweep(chk, exe, listfile, fm, stats, stride=1):
+def sweep(chk, exe, listfile, fm, stats, stride=1, rich=True):
     """every p in [-1, L+1] for ps and pp from every seed state"""
-    seeds = seed_states(fm)
+    seeds = seed_states(fm, rich)
     # first obtain the seed states' hashes
     res = [parse_out(x) for x in vlib.run_cases(exe, [f'{fm.idx} s - none ' + ' '.join(s) for s in seeds], ['--files', listfile], tag='seed')]
     cases = []
@@ -162,9 +162,9 @@ def run(tier):
     nsweep = 0
     for i, fm in enumerate(models):
         budget = time.time() + max(5.0, (t_end - time.time()) / (len(models) - i))
-        ex = Explorer(exe, listfile, fm, sigma(tier == 'thorough'), make_judge(chk, stats), deadline=budget).explore()
+        ex = Explorer(exe, listfile, fm, sigma(tier == 'thorough'), make_judge(chk, stats), deadline=budget, probe='none' if tier == 'quick' else 'plin').explore()
         merr += ex.machinery_errors[:3]
-        n, ns = sweep(chk, exe, listfile, fm, stats, stride=1 if (tier == 'thorough' or fm.L <= 6000) else 3)
+        n, ns = sweep(chk, exe, listfile, fm, stats, stride=1 if (tier == 'thorough' or fm.L <= 6000) else 3, rich=(tier == 'thorough'))
         nsweep += n
         per_file[fm.name] = {'states': len(ex.states), 'transitions': ex.trans, 'fixpoint': ex.fixpoint, 'cut': ex.cut, 'max_depth': ex.max_depth,
                              'alphabet': len(sigma(tier == 'thorough')(fm, None)), 'sweep_cases': n, 'seed_states': ns, 'L': fm.L}
